@@ -13,7 +13,7 @@ PROPERTY = "C14"
 LEVEL = "fault_enumeration"
 RULE = ("fault enumeration of response frames that pass validation: every valid response kind with its body truncated to every "
         "shorter length (CRC, length byte and checksum recomputed) and the raw frame cut at every byte; every count / size field set "
-        "to every value 0..255; every response id 0..255 x bodies of length 0..30 (00 / FF / counting); group nibble 0..15; each bad "
+        "to every value 0..255; well-formed property answers with every id x every value byte 0..255 and every subset of <= 3 ids present; every response id 0..255 x bodies of length 0..30 (00 / FF / counting); group nibble 0..15; each bad "
         "frame as the only answer to refresh, apply, get_capabilities, toggle_display and start_self_clean, and mixed with a good "
         "state report in the same exchange (good+bad, bad+good, bad+good+bad). Oracle: nothing escapes the operation; in a mixed "
         "exchange the good frame is applied and the device is online. non-trivial = every case")
@@ -92,6 +92,31 @@ def bad_frames(tier, group: str):
             for extra in (1, 40, 200):
                 big = (b + bytes(extra))[:243]
                 yield (f"oversized {k} +{extra}", rebuild(big, f[9]))
+    elif group in ("propvals", "propsets"):
+        from itertools import combinations
+        pids = [0x0009, 0x000A, 0x0015, 0x0018, 0x001A, 0x0039, 0x0042, 0x0043, 0x0048, 0x004B, 0x00E3, 0x021E, 0x0227]
+
+        def props(rid, recs, ft):
+            body = bytearray([rid, len(recs)])
+            for pid, val in recs:
+                body += bytes([pid & 0xFF, pid >> 8, 0x00, len(val)]) + val
+            return rebuild(bytes(body) + b"\x09", ft)
+        if group == "propvals":
+            # well-formed property answers: every id with every first value byte (sizes 1 and 2) ...
+            for rid, ft in ((0xB1, 0x03), (0xB0, 0x02)):
+                for pid in pids:
+                    for v in range(256):
+                        for size in (1, 2):
+                            if size == 2 and tier != "thorough" and v % 17:
+                                continue
+                            yield (f"prop {rid:#x} id={pid:#06x} value={v} size={size}", props(rid, [(pid, bytes([v, 0x01][:size]))], ft))
+        else:
+            # ... and every subset of <= 3 ids answered (the others absent) with each of the values 0, 1, 2
+            for rid, ft in ((0xB1, 0x03), (0xB0, 0x02)):
+                for k in (1, 2, 3):
+                    for sub in combinations(pids, k):
+                        for v in (0, 1, 2):
+                            yield (f"propset {rid:#x} ids={'+'.join(f'{x:x}' for x in sub)} value={v}", props(rid, [(x, bytes([v])) for x in sub], ft))
     else:
         lens = range(0, 31) if tier == "thorough" else [0, 1, 2, 3, 4, 5, 8, 12, 20, 30]
         lo, hi = (0, 128) if group == "ids-a" else (128, 256)
@@ -108,6 +133,10 @@ def shards(tier):
     for g in ("trunc", "fields", "ids-a", "ids-b"):
         for d in DRIVERS:
             out.append((g, d, "alone"))
+    for g in [f"propvals:{i}/6" for i in range(6)] + [f"propsets:{i}/2" for i in range(2)]:
+        for d in ("refresh-props", "apply") + (("refresh",) if tier == "thorough" else ()):
+            out.append((g, d, "alone"))
+        out.append((g, "refresh-props", "bad+good"))
     for g in ("trunc", "fields"):
         for mix in ("good+bad", "bad+good", "bad+good+bad"):
             for d in ("refresh", "apply", "refresh-props"):
@@ -232,6 +261,10 @@ def caps_snapshot(ac):
 
 def run_shard(shard, tier) -> Stats:
     group, driver, mix = shard
+    part, nparts = 0, 1
+    if ":" in group:
+        group, frac = group.split(":")
+        part, nparts = (int(x) for x in frac.split("/"))
     st = Stats()
     caps_base = None
     if driver == "get_capabilities" and mix != "alone":
@@ -239,7 +272,9 @@ def run_shard(shard, tier) -> Stats:
         caps_base = caps_snapshot(a)
         fresh = caps_snapshot(Rig(2).client())
         assert o[0] == "ok" and caps_base != fresh, "baseline capabilities must differ from the defaults"
-    for label, frame in bad_frames(tier, group):
+    for idx, (label, frame) in enumerate(bad_frames(tier, group)):
+        if idx % nparts != part:
+            continue
         case = {"label": label, "frame": frame, "driver": driver, "mix": mix}
         out, ac, devmodel = execute(frame, driver, mix)
         prob = None
